@@ -572,27 +572,30 @@ def listOf (k : PKind) (cont : List Pkg → P Res) : P Res :=
     | .err .notFound => cont []
     | _ => .ret (.err "install: list")
 
+/-- PackageInstaller.Run after the three lists: buildPack for every image, then apply all -/
+def installBody (res : List (String × String) → Ref → String) (p c f : List Img) (pl cl fl : List Pkg) : P Res :=
+  match buildAll res (buildIndex pl) p with
+  | none => .ret (.err "install: parse")
+  | some ps =>
+    match buildAll res (buildIndex cl) c with
+    | none => .ret (.err "install: parse")
+    | some cs =>
+      match buildAll res (buildIndex fl) f with
+      | none => .ret (.err "install: parse")
+      | some fs =>
+        Prog.bind (forEach (applyPkg .provider) ps) fun r =>
+          match r with
+          | .ok => Prog.bind (forEach (applyPkg .configuration) cs) fun r =>
+            match r with
+            | .ok => forEach (applyPkg .function) fs
+            | e => .ret e
+          | e => .ret e
+
 /-- PackageInstaller.Run, parametric in the lookup used by buildPack -/
 def installWith (res : List (String × String) → Ref → String) (p c f : List Img) : P Res :=
   listOf .provider fun pl =>
   listOf .configuration fun cl =>
-  listOf .function fun fl =>
-    match buildAll res (buildIndex pl) p with
-    | none => .ret (.err "install: parse")
-    | some ps =>
-      match buildAll res (buildIndex cl) c with
-      | none => .ret (.err "install: parse")
-      | some cs =>
-        match buildAll res (buildIndex fl) f with
-        | none => .ret (.err "install: parse")
-        | some fs =>
-          Prog.bind (forEach (applyPkg .provider) ps) fun r =>
-            match r with
-            | .ok => Prog.bind (forEach (applyPkg .configuration) cs) fun r =>
-              match r with
-              | .ok => forEach (applyPkg .function) fs
-              | e => .ret e
-            | e => .ret e
+  listOf .function fun fl => installBody res p c f pl cl fl
 
 def installStep := installWith resolve
 def installStepDefective := installWith resolveDefective
